@@ -29,6 +29,9 @@ FORMATS = {
     'gro':       dict(ext='.gro', unit=1.0, time=1, box=2, lengths=None, angles=None, cell=True, has_time=True,
                       length=False, flush=False, tol=2e-3),
     'pdb':       dict(ext='.pdb', unit=0.1, cell=True, has_time=False, tol=2e-4),
+    # single-frame restart files: readable through md.load / md.load_frame / md.iterload like any other format (no cursor)
+    'rst7':      dict(ext='.rst7', unit=0.1, cell=True, has_time=True, tol=2e-5),
+    'ncrst':     dict(ext='.ncrst', unit=0.1, cell=True, has_time=True, tol=1e-5),
     # read-only fixture format (no writer exists): sequential read(n)/read() only; seek, tell and len raise NotImplementedError
     'arc':       dict(ext='.arc', unit=1.0, time=None, box=None, lengths=None, angles=None, cell=False, has_time=False,
                       length=False, flush=False, tol=0.0),
